@@ -67,6 +67,7 @@ func c09(p *P) {
 	r.Rule("C09.R5", "checkpoint writer/reader agreement", 3)
 	r.Rule("C09.R6", "GetPowerTable: checkpoint + deltas of the certificates in between; range guards", 5)
 	r.Rule("C09.R7", "key constructors shared by readers and writers; GetRange order", 5)
+	p.include(c04, map[string]string{"C04.R5": "C09.R8", "C04.R6": "C09.R8b"}, map[string]string{"C09.R8": "delta application (used by Put and GetPowerTable) rejects malformed deltas, works on a fresh map", "C09.R8b": "delta construction"})
 
 	writers := p.dsWriters()
 	put := p.fn("C09.R1", "certstore.Store.Put")
